@@ -420,7 +420,12 @@ def block_tie_is_numeric(ctx: Ctx, rep: Report, rid: str = "R15.17") -> None:
     other = f.params[1] if len(f.params) > 1 else "other"
     env = single_env(f.node)
     n = 0
-    for br in [x for x in own_nodes(f.node) if isinstance(x, ast.If) and isinstance(x.test, ast.Call) and src(x.test.func) == "isinstance" and len(x.test.args) == 2 and src(x.test.args[0]) == other and "AceGroup" in src(x.test.args[1])]:
+    def _is_block_test(t: ast.AST) -> bool:
+        if isinstance(t, ast.Name) and t.id in env:
+            t = env[t.id]  # `is_group = isinstance(other, AceGroup)` ... `if is_group:`
+        return isinstance(t, ast.Call) and src(t.func) == "isinstance" and len(t.args) == 2 and src(t.args[0]) == other and "AceGroup" in src(t.args[1])
+
+    for br in [x for x in own_nodes(f.node) if isinstance(x, ast.If) and _is_block_test(x.test)]:
         for r in [y for b in br.body for y in ast.walk(b) if isinstance(y, ast.Return) and y.value is not None]:
             v = deep_resolve(r.value, env)
             if not (isinstance(v, ast.Compare) and len(v.ops) == 1):
